@@ -1121,12 +1121,23 @@ def sweep_groups(root: int, n_groups: int) -> list:
             grouped = r
             break
     PA, PB = rich_doc(rng, 0, "pageby"), rich_doc(rng, 1, "pageby")
+    # a document whose two-level group_by fails at the FIRST level, next to one whose group_by is fine
+    def grouped_doc(keys0, variant):
+        n = len(keys0)
+        cols = [["c0", "str", keys0], ["c1", "str", [f"S{i // 2}" for i in range(n)]],
+                ["c2", "str", [rng.choice(LATEX_TEXTS + ["Drug A"]) for _ in range(n)]]]
+        return {"kind": "single", "dfs": [{"cols": cols}],
+                "bodies": [{"group_by": ["c0", "c1"], "text_color": ("red", "navy")[variant % 2]}],
+                "page": {"nrow": 10}, "title": {"text": "Grouped " + str(variant)}, "subline": None,
+                "page_header": None, "page_footer": None, "footnote": None, "source": None, "headers": "default"}
+    GF = grouped_doc(["G1", "G2", "G1", "G2", "G3", "G3"], 0)      # fails: G1 is not contiguous
+    GG = grouped_doc(["G1", "G1", "G2", "G2", "G3", "G3", "G3", "G4"], 1)
     SBs = _json.loads(_json.dumps(SB))
     for c in ("footnote", "source", "title", "page_header", "page_footer"):
         SBs[c] = _json.loads(_json.dumps(SA[c]))  # equal specs: the two documents hold the SAME component objects
     groups = [("single-vs-single", SA, SB), ("multi-vs-figure", MA, FB), ("figure-overlap", FA, FB),
               ("equal-valued", SB, _json.loads(_json.dumps(SB))), ("single-vs-failing", SA, failing or SB),
-              ("pageby-vs-pageby", PA, PB), ("shared-components", SA, SBs),
+              ("pageby-vs-pageby", PA, PB), ("shared-components", SA, SBs), ("failing-vs-grouped", GF, GG),
               ("multi-vs-multi", MA, MB), ("grouped-vs-single", grouped or MB, SA),
               ("figure-vs-single", FA, SB)]
     return groups[:n_groups]
@@ -1245,11 +1256,11 @@ def sweep_jobs(root: int, groups: list, refcache: RefCache, specs: list, hot_inf
 # batch
 # --------------------------------------------------------------------------
 
-TIERS = {"quick": {"runs": 600, "wall": 420.0, "groups": 7, "hot_cap": 600, "hot3_cap": 100,
+TIERS = {"quick": {"runs": 600, "wall": 420.0, "groups": 8, "hot_cap": 600, "hot3_cap": 100,
                    "sweeps": [(0, "call", 48), (1, "call", 48), (2, "call", 8), (3, "call", 64), (4, "call", 48),
-                              (5, "call", 2048), (6, "call", 48), (0, "line", 384)]},
-         "thorough": {"runs": 60000, "wall": 3000.0, "groups": 10, "hot_cap": 4000, "hot3_cap": 2500,
-                      "sweeps": [(i, "callret", 1) for i in range(10)] + [(i, "line", 4) for i in range(10)]}}
+                              (5, "call", 2048), (6, "call", 48), (7, "call", 8), (0, "line", 384)]},
+         "thorough": {"runs": 60000, "wall": 3000.0, "groups": 11, "hot_cap": 4000, "hot3_cap": 2500,
+                      "sweeps": [(i, "callret", 1) for i in range(11)] + [(i, "line", 4) for i in range(11)]}}
 
 
 def main(opts) -> int:
